@@ -196,6 +196,64 @@ def r09_2b(facts, res, table):
         res.add(Finding("R09-2b", "substring|rounding", "substring(): expected round() applied to the second and to the third argument separately "
                         "(found %d calls of round_half_up%s)" % (len(rounds), ", one of them on a sum" if any(from_arith(t["args"][0]) for _, t in rounds) else ""),
                         f["file"], f["line"], {}))
+    # round(): the integer closest to the argument, ties towards +infinity.  `floor(x + 0.5)` is not that: the addition
+    # rounds (0.49999999999999994 + 0.5 = 1.0; 4503599627370497 + 0.5 = 4503599627370498).
+    g = facts.fn("xml_xpath::eval::func::round_half_up")
+    st["instances"] += 1
+    adds_half = any(m.get("k") == "Binary" and m.get("op") == "+" and
+                    any(x.get("k") == "Lit" and str(x.get("v")) in ("0.5", "0.5f64") for x in (m["a"], m["b"])) for m in walk(g["body"]))
+    res.oblige(1, not adds_half)
+    if adds_half:
+        res.add(Finding("R09-2b", "round|plus-half", "round_half_up adds 0.5 before flooring: the sum is rounded to the nearest double, so "
+                        "round(0.49999999999999994) is 1 and odd integers above 2^52 move to the next even one", g["file"], g["line"], {}))
+    # unary minus: `-` applies number() to its operand; an even run of signs cancels but still converts
+    u = facts.fn("xml_xpath::eval::eval_unary_expr")
+    st["instances"] += 1
+    bound = set()
+    for m in walk(u["body"]):
+        if m.get("s") == "Let" and any(str(c.get("f", {}).get("path", "")).endswith("eval_union_expr") for c in walk(m.get("init", {})) if c.get("k") == "Call"):
+            bound |= {q["lid"] for q in walk(m["pat"]) if q.get("p") == "Bind"}
+    import staleidx
+    seq = staleidx._walk_parents(u["body"])
+    bad_ret = None
+    for i, (m, pi, slot) in enumerate(seq):
+        if m.get("k") == "Call" and str(m.get("f", {}).get("path", "")).endswith("Ok") and m.get("args") and \
+                m["args"][0].get("k") == "Path" and m["args"][0].get("lid") in bound:
+            # the unconverted operand is returned: only allowed under `inv().is_empty()`
+            k, ok_guard = pi, False
+            while k is not None:
+                pn, ppi, pslot = seq[k]
+                if pn.get("k") == "If":
+                    if any(x.get("k") == "MethodCall" and x["m"] == "is_empty" for x in walk(pn["cond"])):
+                        ok_guard = True
+                k = ppi
+            if not ok_guard:
+                bad_ret = m
+    res.oblige(1, bad_ret is None)
+    if bad_ret is not None:
+        res.add(Finding("R09-2b", "unary-minus|conversion", "eval_unary_expr returns its operand unconverted although minus signs were applied "
+                        "(the test is not `no sign at all`): --'2' is the string '2' instead of the number 2", u["file"], bad_ret.get("ln"), {}))
+    # lang(): xml:lang of the nearest element, case-insensitive, sublanguages
+    e = table.get("lang")
+    if e is not None:
+        f = facts.fns[e["fid"]]
+        st["instances"] += 1
+        names_ = {m["m"] for m in walk(f["body"]) if m.get("k") == "MethodCall"}
+        for c in [x for x in facts.fns.values() if x.get("parent") == f["path"] and "body" in x]:
+            names_ |= {m["m"] for m in walk(c["body"]) if m.get("k") == "MethodCall"}
+        lits = {str(m.get("v")) for m in walk(f["body"]) if m.get("k") == "Lit"}
+        for c in [x for x in facts.fns.values() if x.get("parent") == f["path"] and "body" in x]:
+            lits |= {str(m.get("v")) for m in walk(c["body"]) if m.get("k") == "Lit"}
+        problems = []
+        if not names_ & {"to_ascii_lowercase", "to_lowercase", "eq_ignore_ascii_case"}:
+            problems.append("the comparison is case-sensitive")
+        if not (names_ & {"strip_prefix", "starts_with"} and ("-" in lits or "45" in lits)):
+            problems.append("a sublanguage (en-US for en) does not match")
+        if "http://www.w3.org/XML/1998/namespace" not in lits:
+            problems.append("the attribute is not required to be xml:lang (any attribute with the local name lang counts)")
+        res.oblige(1, not problems)
+        if problems:
+            res.add(Finding("R09-2b", "lang", "lang(): %s (XPath 1.0 4.3)" % "; ".join(problems), f["file"], f["line"], {}))
     if st["instances"] < 15:
         raise BrokenCheck("R09-2b: %d primitives (floor 15)" % st["instances"])
 
